@@ -53,6 +53,7 @@ theorem dom18_of_spec {op : Op} (h : opInDomain op = true) : opDom op := by
   · intro t ht; exact h t ht
   · exact h
   · exact h
+  · cases h
 
 theorem not_and3 {a b c : Prop} [Decidable a] [Decidable b] (h : ¬(a ∧ b ∧ c)) : (¬a ∨ ¬b) ∨ ¬c := by
   by_cases ha : a
@@ -78,6 +79,7 @@ theorem step_ok (s : State) (op : Op) (acc : List Accepted) (hd : opInDomain op 
   | store f ids => exact ⟨by simp [holdsOp], by simpa [removes, newlyAccepted] using hkeepTr rfl⟩
   | exp db rp D t => exact ⟨by simp [holdsOp], by simpa [removes, newlyAccepted] using hkeepTr rfl⟩
   | pre a b => exact ⟨by simp [holdsOp], by simpa [removes, newlyAccepted] using hkeepTr rfl⟩
+  | trunc t => exact hdom.elim
   | del db rp id => exact ⟨by simp [holdsOp], by simp [removes]⟩
   | setdel db rp id a => exact ⟨by simp [holdsOp], by simp [removes]⟩
   | dropshard id => exact ⟨by simp [holdsOp], by simp [removes]⟩
